@@ -368,6 +368,22 @@ class SymEval:
             x, at2 = self.fm.deref_at(x.args[0], at2)
             if isinstance(x, (ast.ListComp, ast.SetComp, ast.GeneratorExp)):
                 return self.collection(x, at2)
+        if isinstance(x, ast.BinOp) and isinstance(x.op, ast.BitOr) or \
+                isinstance(x, ast.Call) and isinstance(x.func, ast.Attribute) and x.func.attr == "union" and len(x.args) == 1 and not x.keywords:
+            # A | B : what either side holds (a side that is filled by statements carries the conditions of its fills, a
+            # comprehension the condition under which it is evaluated)
+            parts = [x.left, x.right] if isinstance(x, ast.BinOp) else [x.func.value, x.args[0]]
+            out_ = []
+            for p_ in parts:
+                c_ = self.collection(p_, at2)
+                if c_ is None:
+                    return None
+                y_, aty_ = self.fm.deref_at(p_, at2)
+                if isinstance(y_, (ast.ListComp, ast.SetComp, ast.GeneratorExp)):
+                    here = self.cond(aty_)
+                    c_ = [(el, logic.And(here, cd)) for el, cd in c_]
+                out_ += c_
+            return out_
         if isinstance(x, ast.BinOp) and isinstance(x.op, ast.Sub):
             # A - B : the elements of A that are not in B
             a_, b_ = self.val(x.left, at2), self.val(x.right, at2)
